@@ -320,3 +320,7 @@ Definition aval_get_default (d : aval) (k : string) (dflt : aval) : aval :=
   | VMap kv => match find (fun p => String.eqb (fst p) k) kv with Some p => snd p | None => dflt end
   | _ => dflt
   end.
+
+(* s[:-1] *)
+Definition py_str_drop_last (s : string) : string :=
+  str_rev (match str_rev s with String _ t => t | EmptyString => EmptyString end).
